@@ -350,6 +350,40 @@ def run(ctx):
                 break
             if len(t.samples) < 2 and len(versions) >= 3:
                 t.samples.append({"versions": versions})
+        # sizes no small example reaches: a published file of 9000 lines / 250 kB (beyond every read and write block size) with a
+        # chain of three versions; local copy absent, foreign, at each version
+        if not t.fail:
+            v0 = ["Package: p%d\nDescription: %s\n" % (i, "d" * (i % 40)) for i in range(4500)]
+            v0 = [l for two in v0 for l in two.splitlines(True)]
+            v1 = list(v0)
+            v1[100:103] = ["changed a\n"]
+            v1[5000:5000] = ["inserted %d\n" % j for j in range(30)]
+            v2 = list(v1)
+            del v2[8000:8010]
+            v2[4095:4097] = ["boundary 1\n", "boundary 2\n", "boundary 3\n"]
+            big_versions = [v0, v1, v2]
+            for lname, lcontent in [("absent", None), ("foreign", ["foreign\n"] * 5000), ("v0", v0), ("v1", v1), ("v2", v2)]:
+                root = os.path.join(base, "big-" + lname)
+                os.makedirs(root)
+                local = os.path.join(root, "local")
+                try:
+                    remote = publish(root, big_versions, "ok", rng.choice(["SHA1", "SHA256", "both"]))
+                    if lcontent is not None:
+                        with open(local, "w", encoding="utf-8") as f:
+                            f.writelines(lcontent)
+                    result = real.update_file(remote, local)
+                    on_disk = read_local(local)
+                except Exception as e:
+                    t.failed("update_file on a 9000-line repository raised %r" % (e,), local=lname)
+                    break
+                t.case(key=("large", lname))
+                if result != v2 or on_disk != v2 or os.path.exists(local + ".new"):
+                    first = next((i for i, (x, y) in enumerate(zip(on_disk or [], v2)) if x != y), min(len(on_disk or []), len(v2)))
+                    t.failed("update_file on a 9000-line repository does not end with the published content", local=lname,
+                             lines_returned=len(result or []), lines_on_disk=len(on_disk or []), lines_published=len(v2),
+                             first_difference_at_line=first)
+                    break
+                shutil.rmtree(root, ignore_errors=True)
     finally:
         shutil.rmtree(base, ignore_errors=True)
     t.done()
